@@ -6,6 +6,8 @@ Line-protocol driver for C05 (op grammar: harness/hx-c05/src/bin/c05.rs).
   case <n>
   hyd <views A> <views B>     SSR of A, parsed, hydrated with A, rebuilt with B; CSR twin
   mis <views A> <views C>     A hydrated against the DOM of C's SSR string
+  frag <tag> <pre> <itemsA> <itemsB> <post>   `<tag>` with children `pre…, Fragment(itemsA), post…` (each `-` or views),
+                              hydrated, the fragment rebuilt with itemsB; CSR twin
 
 `<views>` is one word, view+ with
   view := 'T' hex ';' | 'U' | 'E' tag ';' attr* '>' view* '<' | 'P' view* ')' | 'N' | 'S' view
@@ -171,8 +173,9 @@ def opHyd (a b : View) : String :=
     | .error _ =>
       s!"{head} tree={orDash (encH ts)} hyd={outcomeStr d r} created=0 ## fail hydration-error"
     | .ok o =>
-      -- hydrated world
-      let (d1, _) := rebuild false b o.state d
+      -- hydrated world: the writes of the walk (the empty string's `" "` becomes `""`), then the rebuild
+      let dh := settle o.state d
+      let (d1, _) := rebuild false b o.state dh
       -- the twin lives in the same arena, as in the harness
       let (d2, root2) := d1.createElement "div"
       let (d2, st2) := build a d2
@@ -185,13 +188,13 @@ def opHyd (a b : View) : String :=
       -- the specified state, bound (`C05_hydrate_succeeds`)
       let specOK := stateBeq o.state (adopt a .firstChild f).1 && bound d o.state &&
         realisesB d root f ts && (hasRawKids a || decide (ts = domOf a)) &&
-        treesBeq ((serializeKids d root).getD []) (toDomTrees ts)
+        treesBeq ((serializeKids d root).getD []) (toDomTrees ts) &&
+        (hasRawKids a || treesBeq ((serializeKids dh root).getD []) (domA a .firstChild))
       let good := o.created == 0 && d2.errs.isEmpty && treesBeq (stripL after) (stripL csr) && specOK
       let cls :=
         if good then "ok"
         else if !specOK then "fail model-self-check"
         else if hasRawKids a then "fail raw-text-child"
-        else if hasEmptyText a then "fail empty-text"
         else "fail unexplained"
       s!"{head} tree={orDash (encH ts)} hyd=ok created={o.created} after={orDash (encD after)} csr={orDash (encD csr)} ## {cls}"
 
@@ -204,6 +207,36 @@ def opMis (a c : View) : String :=
     let created := match r with | .ok o => o.created | .error _ => 0
     s!"tree={orDash (encH ts)} hyd={outcomeStr d r} created={created}"
 
+def decodeSeq (w : String) : Option (List View) :=
+  if w == "-" then some [] else
+  match parseSeq none w.toList [] with
+  | some (vs, []) => some (vs.map wrap)
+  | _ => none
+
+def outcomeU (d : Dom) : Except HydrationError Unit → String
+  | .ok _ => "ok"
+  | .error (.text f) => s!"err:text:{kindLetter d f}"
+  | .error (.marker f) => s!"err:marker:{kindLetter d f}"
+  | .error (.element _ f) => s!"err:element:{kindLetter d f}"
+
+/-- `frag <tag> <pre> <itemsA> <itemsB> <post>`: `<tag>` with children `pre…, Fragment(items), post…` -/
+def opFrag (tag : String) (pre itemsA itemsB post : List View) : String :=
+  let kids := pre ++ itemsA ++ post
+  let htmlS := toHtml (.elem tag [] (.tuple kids))
+  let head := s!"html={orDash (hexOfString (String.ofList htmlS))}"
+  match Html.parse htmlS with
+  | none => s!"{head} tree=none ## fail parse-none"
+  | some ts =>
+    let h := runFragHydrated false ts tag pre itemsA itemsB post
+    let c := runFragCsr tag pre itemsA itemsB post
+    let d0 := (loadRoot ts).1
+    match h.outcome with
+    | .error _ => s!"{head} tree={orDash (encH ts)} hyd={outcomeU d0 h.outcome} created=0 ## fail hydration-error"
+    | .ok _ =>
+      let good := fragLikeCsr false ts tag pre itemsA itemsB post
+      let panicked := !h.errs.isEmpty
+      s!"{head} tree={orDash (encH ts)} hyd=ok created={h.created} panic={if panicked then 1 else 0} after={orDash (encD h.kids)} csr={orDash (encD c.1)} ## {if good then "ok" else "fail unexplained"}"
+
 def step (_ : Unit) (line : String) : Unit × String :=
   let out :=
     match words line with
@@ -212,6 +245,11 @@ def step (_ : Unit) (line : String) : Unit × String :=
       match decodeTop a, decodeTop b with
       | some a, some b => opHyd a b
       | _, _ => "bad-op"
+    | ["frag", tag, p, ia, ib, q] =>
+      match decodeSeq p, decodeSeq ia, decodeSeq ib, decodeSeq q with
+      | some p, some ia, some ib, some q =>
+        if (p ++ ia ++ q).length > 5 || tag.isEmpty || !tag.toList.all tagCharOK then "bad-op" else opFrag tag p ia ib q
+      | _, _, _, _ => "bad-op"
     | ["mis", a, c] =>
       match decodeTop a, decodeTop c with
       | some a, some c => opMis a c
